@@ -313,7 +313,10 @@ def main(argv):
             cov["samples"] += st["samples"][:3]
             cov["input_distribution"][sub["name"]] = st["stats"]
             cov["sub_harnesses"].append({"name": sub["name"], "cases": st["n_cases"], "rule": sub.get("rule", "")})
+            prefixes = spec.get("class_prefixes")
             for v in st["violations"]:
+                if prefixes and not any(v["class"].startswith(px) for px in prefixes):
+                    continue    # belongs to another property's check
                 violations.append((v["class"], v["what"], v["case"]))
             if sub.get("oracle", True) and oko:
                 okr, err = run_oracle(d)
